@@ -7,6 +7,7 @@ package core
 // bolt sweep (c13_strace.go).
 
 import (
+	"errors"
 	"context"
 	"encoding/json"
 	"fmt"
@@ -15,6 +16,7 @@ import (
 	"path/filepath"
 	"strings"
 	"sync"
+	"sync/atomic"
 	"syscall"
 	"testing"
 	"time"
@@ -37,6 +39,7 @@ type c13Params struct {
 	Joiner      bool   `json:"joiner_in_reshare1"`
 	ForcedLeave bool   `json:"forced_leave"`
 	Restarts    int    `json:"restarts"` // 0 = all
+	FailPutAt   int    `json:"fail_put_at"` // the k-th Put (round >= 1) on the victim's base store fails once (0 = never)
 	Seed        uint64 `json:"case_seed"`
 }
 
@@ -62,8 +65,9 @@ func c13Cases() []c13Params {
 		p.N = 3 + rng.Intn(2)
 		p.Thr = p.N/2 + 1
 		p.Victim = rng.Intn(p.N)
-		p.Joiner = rng.Bool()
+		p.Joiner = rng.Bool() || i == 0 // case 0 always has a joiner: its "waiting for the reshare" image is restarted
 		p.ForcedLeave = true
+		p.FailPutAt = 3 + rng.Intn(3)
 		p.Restarts = vfPick(40, 0) // quick: in effect the last image of every crash-window label
 		out = append(out, p)
 	}
@@ -182,6 +186,9 @@ type c13Scenario struct {
 	others []*c13Node
 	// number of images taken when the forced-leave notification was injected (0 = no such segment)
 	forcedSeq int
+	// copy of the joiner's folder taken after it joined the proposed reshare and before the execution started
+	joinerImage string
+	joiner      *c13Node
 }
 
 func TestVFChild_C13Scenario(t *testing.T) {
@@ -270,6 +277,26 @@ func (sc *c13Scenario) main() {
 		rec.install()
 	}
 	defer rec.uninstall()
+	injectedAt := &atomic.Uint64{}
+	if p.FailPutAt > 0 && !norec {
+		var fmu sync.Mutex
+		cnt := 0
+		nt.failPut = func(n *c13Node, b *common.Beacon) error {
+			if n != sc.victim || b.Round == 0 {
+				return nil
+			}
+			fmu.Lock()
+			defer fmu.Unlock()
+			cnt++
+			if cnt == p.FailPutAt {
+				injectedAt.Store(b.Round)
+				run.Count("injected_put_failures", 1)
+				run.Note(fmt.Sprintf("case %d: the Put of round %d on the victim's base store was made to fail once", p.CaseIndex, b.Round))
+				return errors.New("vf: injected store failure")
+			}
+			return nil
+		}
+	}
 	if err := rec.watchDir(filepath.Join(sc.victim.folder, "multibeacon", "default", "groups")); err != nil {
 		run.Note("inotify watch failed: " + err.Error())
 	}
@@ -318,65 +345,101 @@ func (sc *c13Scenario) main() {
 		close(stopPoll)
 		return
 	}
-	if _, ok := nt.waitHeads(ns, 5, 40); !ok {
-		fail("rounds after genesis", fmt.Errorf("network did not reach round 5 in 40 periods"))
-		close(stopPoll)
-		return
-	}
-	// ---- epoch 2: the victim remains
-	members := append([]*c13Node(nil), ns...)
-	var joiners []*c13Node
-	if p.Joiner {
-		joiners, err = nt.addNodes(1)
-		if err != nil {
-			fail("add joiner", err)
-			close(stopPoll)
-			return
-		}
-	}
-	g2, err := nt.runReshare(c13Reshare{leader: ns[0], remaining: members, joining: joiners, thr: (len(members)+len(joiners))/2 + 1})
-	if err != nil {
-		fail("reshare 1", err)
-		close(stopPoll)
-		return
-	}
-	members = append(members, joiners...)
-	tr2 := common.CurrentRound(g2.TransitionTime, g2.Period, g2.GenesisTime)
-	if _, ok := nt.waitHeads(members, tr2+4, 60); !ok {
-		fail("rounds after transition 1", fmt.Errorf("network did not reach round %d", tr2+4))
-		close(stopPoll)
-		return
-	}
-	// ---- epoch 3: the victim leaves
-	var rem []*c13Node
-	for _, n := range members {
+	// default peers for the restarts: everybody but the victim (narrowed down once the victim has left)
+	for _, n := range ns {
 		if n != sc.victim {
-			rem = append(rem, n)
+			sc.others = append(sc.others, n)
 		}
 	}
-	sc.others = rem
-	g3, err := nt.runReshare(c13Reshare{leader: rem[0], remaining: rem, leaving: []*c13Node{sc.victim}, thr: len(rem)/2 + 1})
-	if err != nil {
-		// a reshare with a declared leaver fails in a fair share of the runs (with or without the recorder: the
-		// leaver's kyber instance quits early and some remaining nodes then evict each other). The crash windows
-		// recorded so far are still evaluated; the rest of the script is skipped.
-		fail("reshare 2", err)
-		if h, ok := nt.head(rem[0]); ok {
-			nt.waitHeads(rem, h+2, 30)
-		}
-	} else {
-		tr3 := common.CurrentRound(g3.TransitionTime, g3.Period, g3.GenesisTime)
-		if p.ForcedLeave && !norec {
-			sc.forceLeave(g3)
-		}
-		if _, ok := nt.waitHeads(rem, tr3+3, 60); !ok {
-			fail("rounds after transition 2", fmt.Errorf("network did not reach round %d", tr3+3))
-			close(stopPoll)
+	// the rest of the script; wherever it has to stop, the crash windows recorded so far are still evaluated
+	func() {
+		if _, ok := nt.waitHeads(ns, 5, 40); !ok {
+			// one Put on the victim's store was refused once: the rest of the network is healthy, so the victim has
+			// to get that round again (aggregation retry or sync). Only if the others moved on and the victim is
+			// still behind after a further grace is this the victim's doing.
+			time.Sleep(30 * time.Second)
+			vh, _ := nt.head(sc.victim)
+			oh := uint64(0)
+			for _, n := range sc.others {
+				if h, ok := nt.head(n); ok && h > oh {
+					oh = h
+				}
+			}
+			if injectedAt.Load() > 0 && oh >= 5 && vh < 5 {
+				run.Violation("C13/stuck-after-failed-put/victim-behind-network", fmt.Sprintf(
+					"the Put of round %d on the victim's base store failed once (injected); 40 periods + 30 s later the victim is still at round %d while the others are at %d\n%s",
+					injectedAt.Load(), vh, oh, c13FilterDump(vfGoroutineDump(), "chainStore).", "SyncManager).")), sc.caseInfo(nil, "after-failed-put"))
+			} else {
+				fail("rounds after genesis", fmt.Errorf("network did not reach round 5 in 40 periods (victim %d, others %d)", vh, oh))
+			}
 			return
 		}
-		run.Count("rounds_reached", int64(tr3+3))
-		run.Count("scenario_completed", 1)
-	}
+		// ---- epoch 2: the victim remains
+		members := append([]*c13Node(nil), ns...)
+		var joiners []*c13Node
+		if p.Joiner {
+			joiners, err = nt.addNodes(1)
+			if err != nil {
+				fail("add joiner", err)
+				return
+			}
+		}
+		rs1 := c13Reshare{leader: ns[0], remaining: members, joining: joiners, thr: (len(members)+len(joiners))/2 + 1}
+		if len(joiners) > 0 && !norec {
+			rs1.afterJoin = func() {
+				// the joiner has stored "Joined" and waits for the execution: what a crash leaves on ITS disk now
+				d := filepath.Join(sc.dir, "joiner-waiting")
+				for attempt := 0; attempt < 5; attempt++ {
+					os.RemoveAll(d)
+					if _, stable, err := c13CopyTree(joiners[0].folder, d); err == nil && stable {
+						sc.joinerImage, sc.joiner = d, joiners[0]
+						return
+					}
+					time.Sleep(20 * time.Millisecond)
+				}
+			}
+		}
+		g2, err := nt.runReshare(rs1)
+		if err != nil {
+			fail("reshare 1", err)
+			return
+		}
+		members = append(members, joiners...)
+		tr2 := common.CurrentRound(g2.TransitionTime, g2.Period, g2.GenesisTime)
+		if _, ok := nt.waitHeads(members, tr2+4, 60); !ok {
+			fail("rounds after transition 1", fmt.Errorf("network did not reach round %d", tr2+4))
+			return
+		}
+		// ---- epoch 3: the victim leaves
+		var rem []*c13Node
+		for _, n := range members {
+			if n != sc.victim {
+				rem = append(rem, n)
+			}
+		}
+		sc.others = rem
+		g3, err := nt.runReshare(c13Reshare{leader: rem[0], remaining: rem, leaving: []*c13Node{sc.victim}, thr: len(rem)/2 + 1})
+		if err != nil {
+			// a reshare with a declared leaver fails in a fair share of the runs (with or without the recorder: the
+			// leaver's kyber instance quits early and some remaining nodes then evict each other). The crash windows
+			// recorded so far are still evaluated; the rest of the script is skipped.
+			fail("reshare 2", err)
+			if h, ok := nt.head(rem[0]); ok {
+				nt.waitHeads(rem, h+2, 30)
+			}
+		} else {
+			tr3 := common.CurrentRound(g3.TransitionTime, g3.Period, g3.GenesisTime)
+			if p.ForcedLeave && !norec {
+				sc.forceLeave(g3)
+			}
+			if _, ok := nt.waitHeads(rem, tr3+3, 60); !ok {
+				fail("rounds after transition 2", fmt.Errorf("network did not reach round %d", tr3+3))
+				return
+			}
+			run.Count("rounds_reached", int64(tr3+3))
+			run.Count("scenario_completed", 1)
+		}
+	}()
 	if norec {
 		close(stopPoll)
 		pollWG.Wait()
@@ -441,12 +504,22 @@ func (sc *c13Scenario) forceLeave(g3 *key.Group) {
 // label names the crash window an image belongs to. It is derived from WHAT CHANGED on disk since the previous
 // image (so it does not depend on which goroutine's hook happened to take the picture first); windows of the first
 // DKG and of a resharing are kept apart because their consequences differ.
-func (sc *c13Scenario) label(img *c13Image, prevEpoch, epoch uint32) string {
+func (sc *c13Scenario) label(img *c13Image, prevEpoch, epoch uint32, curState, prevLabel string) string {
 	if img.Synth != "" {
 		return img.Synth
 	}
 	if img.Hook == "final" && len(img.Changed) == 0 {
 		return "final"
+	}
+	// a temp file of an atomic key.Save appearing (or going) next to the real files does not open a new window
+	onlyTmp := len(img.Changed) > 0 && prevLabel != ""
+	for _, c := range img.Changed {
+		if !strings.HasSuffix(c, ".tmp") {
+			onlyTmp = false
+		}
+	}
+	if onlyTmp {
+		return prevLabel
 	}
 	phase := "@reshare"
 	if epoch <= 1 {
@@ -496,7 +569,11 @@ func (sc *c13Scenario) label(img *c13Image, prevEpoch, epoch uint32) string {
 		if epoch != prevEpoch {
 			return "dkgstore.savefinished.after" + phase
 		}
-		return "dkgstore.save.after"
+		// a DKG in progress: first DKG (nothing completed yet) or a resharing, and the state the record is in
+		if epoch == 0 {
+			return "dkgstore.save.after@dkg1/" + curState
+		}
+		return "dkgstore.save.after@reshare/" + curState
 	}
 	if ch, _ := has(c13RelChain); ch {
 		return "store.put.after"
